@@ -195,6 +195,10 @@ impl Check for C19 {
             3 => (gt::choices(170), gt::choices(60)).prop_map(|(task, interp)| FlagCase::External { task, interp }),
             2 => (ga::program(&c), ga::shaped_program(&c, 1), any::<bool>(), g::raw_interp(5, 0, 2, 5))
                 .prop_map(|(left, right, mu, raw)| FlagCase::Strong { left, right, mu, raw }),
+            // rules with three arithmetic / interval terms in one atom (several fresh variables of one
+            // letter in one block of the simplified formulas)
+            1 => (crate::checks::c07::wide_arith_rule(), crate::checks::c07::wide_arith_rule(), any::<bool>(), g::raw_interp(5, 0, 2, 5))
+                .prop_map(|(l, r, mu, raw)| FlagCase::Strong { left: asp::Program { rules: vec![l] }, right: asp::Program { rules: vec![r] }, mu, raw }),
         ]
         .boxed()
     }
@@ -205,7 +209,22 @@ impl Check for C19 {
         let (vs, description, jtext) = match case {
             FlagCase::External { task, interp } => {
                 let mut c = Chooser::new(task.clone());
-                let t = gt::external_task(&mut c);
+                let mut t = gt::external_task(&mut c);
+                // one task in four also has a public ternary predicate defined through three arithmetic
+                // terms at once: o3(X+1, Y+2, W*2) :- in3(X, Y, W).  (several fresh variables of one
+                // letter in one block of the completed definition); same rule on both sides
+                let wide = c.aux(91, 4) == 0;
+                if wide {
+                    let rule: asp::Rule = ["o3(X+1,Y+2,W+1) :- in3(X,Y,W).", "o3(X+1,Y+1,2*W) :- in3(X,Y,W).", "o3(W+1,X+1,Y+3) :- in3(X,Y,W), X != Y."][c.aux(92, 3)]
+                        .parse()
+                        .expect("wide rule");
+                    t.right.rules.push(rule.clone());
+                    if let Some(p) = t.left_program.as_mut() {
+                        p.rules.push(rule);
+                    }
+                    t.user_guide.entries.push(fol::UserGuideEntry::InputPredicate(fol::Predicate { symbol: "in3".into(), arity: 3 }));
+                    t.user_guide.entries.push(fol::UserGuideEntry::OutputPredicate(fol::Predicate { symbol: "o3".into(), arity: 3 }));
+                }
                 let pool = task_pool(&t);
                 let mut ci = Chooser::new(interp.clone());
                 let flags0 = Flags { sequential: true, direction: fol::Direction::Universal, simplify: false, eq_break: false };
@@ -213,7 +232,23 @@ impl Check for C19 {
                     Ok((ps, _)) => ext_ref::discover_right_names(&t, &ps),
                     Err(_) => return Outcome::skip("task refused"),
                 };
-                let j = ext_ref::guided_interp(&t, &names, &mut ci, &pool);
+                let mut j = ext_ref::guided_interp(&t, &names, &mut ci, &pool);
+                if wide {
+                    // any interpretation is admissible for this metamorphic check: a few integer triples for
+                    // in3 and, for o3, mostly the triples the rule derives (so that the definitions hold)
+                    for k in 0..1 + ci.aux(93, 3) {
+                        let (x, y, w) = (ci.aux(94 + k as u64, 4) as i128, ci.aux(104 + k as u64, 4) as i128, ci.aux(114 + k as u64, 4) as i128);
+                        j.insert("in3", vec![Val::Int(x), Val::Int(y), Val::Int(w)]);
+                        match ci.aux(124 + k as u64, 4) {
+                            0 => {}
+                            1 => j.insert("o3", vec![Val::Int(x + 1), Val::Int(y + 1), Val::Int(w + 1)]),
+                            2 => j.insert("o3", vec![Val::Int(x + 1), Val::Int(y + 2), Val::Int(w + 1)]),
+                            _ => j.insert("o3", vec![Val::Int(x + 1), Val::Int(y + 1), Val::Int(2 * w)]),
+                        }
+                    }
+                    j.preds.entry(("in3".to_string(), 3)).or_default();
+                    j.preds.entry(("o3".to_string(), 3)).or_default();
+                }
                 let build = |flags: &Flags| ops::external_problems(&t, &ops::empty_outline(), flags, false).ok().map(|x| x.0);
                 (verdicts(&build, &j, &pool), describe_external(&t), j.json().to_string())
             }
